@@ -106,6 +106,45 @@ fn main() {
         )
     };
 
+    // companion thread (DESIGN 1.2): the same index range, in reverse order, on a second thread of this process
+    // with its own context, for as long as the main loop runs. The library documents no process-wide state, so
+    // what a call returns must not depend on what another thread is computing or on what was computed before;
+    // the companion's oracle decisions count like any other and its violations are merged below.
+    let companion_on = args.iter().any(|a| a == "--companion") && cmd != "case" && !journal && !cfg!(miri);
+    let stop = std::sync::Arc::new(std::sync::atomic::AtomicBool::new(false));
+    let companion = if companion_on {
+        let (id2, profile2, stop2) = (id.clone(), profile.clone(), stop.clone());
+        std::thread::Builder::new()
+            .stack_size(8 << 20)
+            .spawn(move || {
+                let mon2 = mon::all().into_iter().find(|m| m.id() == id2).unwrap();
+                let mut c2 = Ctx::new(&id2, &profile2, seed, thorough);
+                let mut idx = from + count;
+                while idx > from && !stop2.load(Ordering::SeqCst) {
+                    idx -= 1;
+                    c2.case = idx;
+                    c2.cases += 1;
+                    let mut r = Rng::for_case(seed, &id2, idx);
+                    let res = guard(|| mon2.run_case(idx, &mut r, &mut c2));
+                    if let Err(p) = res {
+                        if p.in_library() {
+                            c2.evaluations += 1;
+                            c2.violation(
+                                &format!("unguarded-call/returns/{}/any", p.sig()),
+                                json!({"observed": p.json(), "expected": "the call returns", "thread": "companion"}),
+                            );
+                        } else {
+                            c2.inconclusive(&format!("harness panic (companion thread): {} at {}:{}", p.msg, p.file, p.line));
+                        }
+                    }
+                }
+                c2
+            })
+            .ok()
+    } else {
+        None
+    };
+
     for idx in from..from + count {
         if journal {
             eprintln!("JOURNAL case={}", idx);
@@ -138,6 +177,31 @@ fn main() {
             }
         }
         CASE_IDX.store(u64::MAX, Ordering::SeqCst);
+    }
+
+    stop.store(true, Ordering::SeqCst);
+    if let Some(h) = companion {
+        match h.join() {
+            Ok(c2) => {
+                ctx.count_n("concurrent:companion_cases", c2.cases);
+                ctx.count_n("concurrent:companion_oracle_decisions", c2.evaluations);
+                ctx.evaluations += c2.evaluations;
+                for mut v in c2.violations {
+                    if let Some(sig) = v["sig"].as_str().map(|s| s.to_string()) {
+                        let n = ctx.viol_sigs.entry(sig).or_insert(0);
+                        *n += 1;
+                        if *n <= 3 && ctx.violations.len() < 200 {
+                            v["thread"] = json!("companion (same index range in reverse order, concurrently with the main loop)");
+                            ctx.violations.push(v);
+                        }
+                    }
+                }
+                for (k, n) in c2.incon {
+                    *ctx.incon.entry(k).or_insert(0) += n;
+                }
+            }
+            Err(_) => ctx.inconclusive("companion thread panicked outside every guard"),
+        }
     }
 
     let mut rep = ctx.report();
